@@ -6,6 +6,7 @@ import NoKVModel.Queue.Model
 import NoKVModel.Queue.HandshakeModel
 import NoKVModel.Queue.CloserModel
 import NoKVModel.Queue.PackModel
+import NoKVModel.Queue.CompactModel
 
 namespace NoKV.Queue
 
@@ -14,8 +15,9 @@ structure AllCfg where
   h : HCfg
   w : CCfg
   p : PCfg
+  k : KCfg
   deriving DecidableEq, Repr
 
-def AllCfg.good : AllCfg := { q := QCfg.good, h := HCfg.good, w := CCfg.good, p := PCfg.good }
+def AllCfg.good : AllCfg := { q := QCfg.good, h := HCfg.good, w := CCfg.good, p := PCfg.good, k := KCfg.good }
 
 end NoKV.Queue
